@@ -173,12 +173,10 @@ Section Model.
     | TB_equal => #0 | TB_vc2_nonpos => #1 | TB_cruise => #2 | TB_acc => #3 | TB_acc_neg => #4
     | TB_dec => #5 | TB_dec_neg => #6 | TB_accdec => #7
     end.
-  (* one line of the correspondence: return value, the 12 fields, then pos/vel/acc at each query time *)
+  (* one line of the correspondence: return value, the 12 fields; then the branch code (model only) *)
   Definition trap_gen_line (c0 : list T) (vm ac de p0 p1 v0 v1 : T) : list T :=
     let '(c, r, b) := trap_gen_b (trap_of c0) vm ac de p0 p1 v0 v1 in
-    r :: trap_fields c.
-  Definition trap_gen_branch (c0 : list T) (vm ac de p0 p1 v0 v1 : T) : T :=
-    let '(c, r, b) := trap_gen_b (trap_of c0) vm ac de p0 p1 v0 v1 in trap_branch_code b.
+    r :: trap_fields c ++ [trap_branch_code b].
   Definition trap_eval_line (c : list T) (xs : list T) : list T :=
     let c := trap_of c in
     flat_map (fun x => [trap_pos c x; trap_vel c x; trap_acc c x]) xs.
